@@ -67,9 +67,24 @@ def gen(seed, tier, extra=None):
 # --------------------------------------------------------------------------------------------
 # parsing through the reader seam
 # --------------------------------------------------------------------------------------------
-def parse_text(text, start, n_chunks=1, rng=None):
+def parse_text(text, start, n_chunks=1, rng=None, interlope=None, interference=None):
     from bare_script import parse_script, BareScriptParserError
-    if n_chunks > 1 and rng is not None:
+    if interlope is not None:
+        # the reader itself uses the library (a nested, independent parse) between two chunks it hands out
+        from .. import interloper
+        phys = text.split('\n')
+        cut = min(len(phys), max(0, interlope[0]))
+        chunks = ['\n'.join(phys[:cut]), '\n'.join(phys[cut:])] if 0 < cut < len(phys) else [text]
+
+        def reader():
+            for i, ch in enumerate(chunks):
+                if i == len(chunks) - 1:
+                    bad = interloper.run(interlope[1])
+                    if bad is not None:
+                        interference.append(bad)
+                yield ch
+        source = reader()
+    elif n_chunks > 1 and rng is not None:
         phys = text.split('\n')
         cuts = sorted(rng.sample(range(1, len(phys)), min(n_chunks - 1, len(phys) - 1))) if len(phys) > 1 else []
         chunks = []
@@ -322,6 +337,29 @@ def run(plan, stats):
                                                         (fault.get('col') or 0) // 8, len(phys) // 4)))
         if len(viols) > before:
             viols[-1].detail['fault_key'] = fault_key(fault)
+        elif stream(plan.get('fault_seed', 0), 'interloper:' + fault_key(fault)).random() < 0.04:
+            irng = stream(plan.get('fault_seed', 0), 'interloper-kind:' + fault_key(fault))
+            # fault kind interloper: the same delivered text once more, its reader running a nested independent parse
+            # (valid or failing) between two chunks: same model / same diagnostic, and the nested parse undisturbed
+            kind = irng.choice(['parse', 'parse_error', 'parse_error', 'exec_ok', 'expr'])
+            cut = irng.randint(0, text.count('\n') + 1)
+            a = parse_text(text, start)
+            interference = []
+            b = parse_text(text, start, interlope=(cut, kind), interference=interference)
+            stats.c['evaluations'] += 1
+            stats.faults['interloper:' + kind] += 1
+            stats.probes['nested_independent_use_inside_the_reader'] += 1
+
+            def view(r):
+                m, e, o = r
+                return (m, None if e is None else (str(e), e.line_number, e.column_number), None if o is None else type(o).__name__)
+            if interference:
+                viols.append(Violation(PROP, 'reentrant', 'nested-independent-use-disturbed:' + kind,
+                                       dict(interference[0], fault=fault, fault_key=fault_key(fault))))
+            elif view(a) != view(b):
+                viols.append(Violation(PROP, 'reentrant', 'parse-disturbed-by-nested-independent-use:' + kind,
+                                       {'fault': fault, 'fault_key': fault_key(fault), 'cut_after_line': cut,
+                                        'alone': str(view(a)[1:])[:300], 'with_nested_use': str(view(b)[1:])[:300]}))
 
     case(intact, {'kind': 'none'})
     n = len(phys)
